@@ -1,6 +1,6 @@
 """C16 - Field arithmetic mod p and mod n agrees with the integers."""
 from .. import core, extract
-from ..sm2gen import Gen, rb, b32, N, P
+from ..sm2gen import Gen, rb, b32, N, P, limb_structured
 from ..run import Check, generic_replay
 
 PROP = "C16"
@@ -49,6 +49,12 @@ def gen(chk, tier):
             pairs = [(a, b) for a in sub for b in sub if (a + b) % 7 == 0 or a == b or a + b == m]
         pairs += [(rng.randrange(m), rng.randrange(m)) for _ in range(60 if q else 5000)]
         pairs += [(a, m - a) for a in elems[1:12]] + [(a, a) for a in elems[:12]]
+        # word-structured operands (limbs of 64/32/16/8 bits with zero halves, single bits, ...)
+        st = [v % m for v in limb_structured(rng, 30 if q else 600)]
+        pairs += [(rng.choice(st), rng.choice(st + elems)) for _ in range(40 if q else 1500)]
+        for v in limb_structured(rng, 10 if q else 200, maxbits=224):
+            g.one("%s_setbytes_ge_m" % field, "fiat.setbytes", field=field, v=b32(m - 1 + v), recv=b32(rng.randrange(m)))
+            g.one("%s_setbytes_lt_m" % field, "fiat.setbytes", field=field, v=b32(v % m), recv=b32(rng.randrange(m)))
         for (a, b) in pairs:
             for fn in ("add", "sub", "mul"):
                 alias = rng.choice(["none", "none", "ra", "rb"]) if a != b else rng.choice(["none", "rab", "ab"])
